@@ -13,7 +13,7 @@ ID = "C11"
 LEVEL = "exploration"
 RUNS = {"quick": 2000, "thorough": 40000}
 CHUNK = {"quick": 20, "thorough": 100}
-PROBES = ["read_after_modification", "stale_cache_opportunity", "variant_block", "default_variant",
+PROBES = ["read_after_modification", "stale_cache_opportunity", "nested_modification_via_tree", "variant_block", "default_variant",
           "data_transform_list", "execute_list", "beacon_gate_list", "repeated_option", "repeated_block", "kwargs_style",
           "calls_style", "reparse", "empty_block", "binary_transform_arg", "pair_statement"]
 RULE = ("seeded histories (2-24 ops) on one C2Profile: 'add' ops append a global option or a fully built block (all 11 "
@@ -25,7 +25,7 @@ RULE = ("seeded histories (2-24 ops) on one C2Profile: 'add' ops append a global
         "15% of plans are parsed from independently printed text incl. variants. non-trivial = a read follows a "
         "modification that follows a read (cache invalidation exercised) or a list/variant path is present; distinct = digest")
 ASSUMPTIONS = [
-    "option values and pair strings avoid double quote and backslash (string escaping is C12, not claimed); transform/execute arguments are arbitrary bytes except quote characters and backslash",
+    "option values and pair strings avoid double quote and backslash (string escaping is C12, not claimed); transform/execute arguments are arbitrary bytes (all 256 values)",
     "data-transform lists only in non-variant blocks; stage.transform-x86/x64 and process-inject.transform-x64 are not generated (their listing is not pinned by the property)",
     "module_x64 (grammar alias clash, a C10 matter) and the '#'-prefixed dns_resolver pseudo option are not generated",
     "values are compared as plain strings (lark Tokens are str)",
@@ -78,6 +78,7 @@ GATE = ["None", "Comms", "Core", "Cleanup", "All", "InternetOpenA", "InternetCon
         "CreateRemoteThread", "OpenProcess", "OpenThread", "CloseHandle", "CreateFileMappingA", "MapViewOfFile", "UnmapViewOfFile",
         "VirtualQuery", "DuplicateHandle", "ReadProcessMemory", "WriteProcessMemory", "ExitThread"]
 GATE_ALIAS = {g: ("virtualprotextex" if g == "VirtualProtectEx" else g.lower()) for g in GATE}
+WIDE = True   # transform/execute arguments range over all 256 byte values (quotes and backslash included)
 _VAL = "abcdefghijklmnopqrstuvwxyzABCDEFGHIJKLMNOPQRSTUVWXYZ0123456789 ,.;:/!@#$%^&*()_+-={}[]|<>?~`"
 
 
@@ -91,8 +92,8 @@ def _arg(rng):
     n = rng.choice([0, 1, 3, 8, 20])
     out = bytearray()
     while len(out) < n:
-        b = rng.choice([rng.getrandbits(8), rng.randint(0x20, 0x7E), 0, 10, 13, 9, 0xFF])
-        if b in (0x22, 0x27, 0x5C):
+        b = rng.choice([rng.getrandbits(8), rng.randint(0x20, 0x7E), 0, 10, 13, 9, 0xFF] + ([0x22, 0x27, 0x5C, 0x5C] if WIDE else []))
+        if b in (0x22, 0x27, 0x5C) and not WIDE:
             continue
         out.append(b)
     return hx(bytes(out))
@@ -175,6 +176,9 @@ def generate(rng, tier, index):
                 ops.append(["add", _gen_block(rng)])
                 attached += 1
         elif r < 0.55 and attached:
+            if rng.random() < 0.6:
+                ops.append(["nested", rng.randrange(attached), _val(rng)])
+                continue
             # re-attach an already used block kind (repeated blocks) instead of mutating an attached block object:
             # whether a change made through a block object *after* attaching it reaches the profile depends on lark
             # internals (the Reconstructor re-creates child lists on the first read), and the property only speaks of
@@ -511,6 +515,23 @@ def execute(plan: dict) -> Result:
                         res.probes["pair_statement"] += 1
                 if read_seen:
                     modified_since_read = True
+            elif op[0] == "nested":
+                # a statement appended to an already attached block through the profile's own tree (top-level child count
+                # unchanged): `set <option> "<value>";` built exactly like ConfigBlock.set_option does
+                if not attached:
+                    continue
+                from lark import Token, Tree
+                mit, b, b2 = attached[op[1] % len(attached)]
+                opts = BLOCKS[mit[1]][2]
+                a = opts[(oi * 7) % len(opts)][0]
+                pos = [i for i, x in enumerate(items) if x is mit][0]
+                for pr in (prof, other):
+                    pr.tree.children[pos].children.append(
+                        Tree(a, [Tree("string", [Token("STRING", cp.value_to_string(op[2]))])]))
+                mit[2].append(["set", a, op[2]])
+                res.probes["nested_modification_via_tree"] += 1
+                if read_seen:
+                    modified_since_read = True
             elif op[0] == "mutate":
                 if not attached:
                     continue
@@ -590,8 +611,8 @@ def _brief(ops):
     for op in ops:
         if op[0] == "add":
             out.append("add " + (f"opt {op[1][1]}" if op[1][0] == "opt" else f"block {op[1][1]}[{len(op[1][2])}]"))
-        elif op[0] == "mutate":
-            out.append(f"mutate #{op[1]}")
+        elif op[0] in ("mutate", "nested"):
+            out.append(f"{op[0]} #{op[1]}")
         else:
             out.append(op[1])
     return "[" + ", ".join(out) + "]"
